@@ -1,7 +1,63 @@
-import GoSup.Model.Middleware
+import GoSup.Proofs.Middleware
 import GoSup.Spec.C15
-/-! # C15 — property theorems (middleware chain, ResponseWriter) -/
+/-!
+# C15 — property theorems (middleware chain)
+For every chain of handler programs of every length over the whole action alphabet, including
+the built-in middlewares (which are handler programs over the same alphabet), every request
+path and every connection capacity.
+-/
 namespace GoSup.Props.C15
 open GoSup.Middleware
+
+def toSt : Out Impl → Out St
+  | .ok m => .ok m.s
+  | .panic m => .panic m.s
+  | .fuel => .fuel
+
+/-- **Refinement.** Whenever the index-based implementation model (`RequestProcessor.Next/Abort`
+literally: `index++`, the `for` loop, `index = len`) terminates within its fuel, its result — the
+complete event trace (handler enter/leave, marks, Abort calls, recovery, observations), the
+response and the writer's bookkeeping — equals the reference interpreter's, which has no index
+and recurses over the list of handlers not yet started. -/
+theorem c15_refines (hs : List Handler) (s : St) (fuel : Nat) (h : execImpl fuel hs s ≠ .fuel) :
+    execImpl fuel hs s = execSpec hs s := by
+  have hne : implNext fuel hs { s := s, pos := 0 } ≠ .fuel := by
+    intro e; simp [execImpl, e] at h
+  have := (refines_all hs fuel).next { s := s, pos := 0 } hne
+  simp only [List.drop_zero] at this
+  simp only [execImpl, execSpec]
+  cases hr : implNext fuel hs { s := s, pos := 0 } with
+  | fuel => exact absurd hr hne
+  | ok m =>
+    cases hq : specRun 0 hs s with
+    | ok s' => simp only [hr, hq, runRel] at this; simp [this.1]
+    | panic s' => simp [hr, hq, runRel] at this
+    | fuel => simp [hr, hq, runRel] at this
+  | panic m =>
+    cases hq : specRun 0 hs s with
+    | ok s' => simp [hr, hq, runRel] at this
+    | panic s' => simp only [hr, hq, runRel] at this; simp [this]
+    | fuel => simp [hr, hq, runRel] at this
+
+/-- the reference interpreter is total: it always produces a response or a panic -/
+theorem c15_spec_total (hs : List Handler) (s : St) : execSpec hs s ≠ .fuel :=
+  (spec_no_fuel _).2 0 hs s (Nat.le_refl _)
+
+/-- after `Next` returned, the chain is exhausted: a second `Next` in the same handler, or any
+`Next` after `Abort`, starts nothing (reference interpreter, decision logic stated outright) -/
+theorem c15_nothing_after_consumed (i : Nat) (as : List Act) (s : St) :
+    specActs i (.next :: as) [] s = consumed (specActs i as [] s)
+    ∧ specActs i (.abort :: .next :: as) [] s = consumed (consumed (specActs i as [] (s.emit (.aborted i)))) := by
+  refine ⟨?_, ?_⟩
+  · rw [specActs_next, specRun_nil]
+  · rw [specActs_abort, specActs_next, specRun_nil]
+
+/-- non-vacuity: three handlers; the second calls Next twice, the third aborts -/
+example : execImpl 100 [[.mark 1, .next, .mark 2], [.next, .next], [.abort, .next]] {} =
+    execSpec [[.mark 1, .next, .mark 2], [.next, .next], [.abort, .next]] {} ∧
+    execImpl 100 [[.mark 1, .next, .mark 2], [.next, .next], [.abort, .next]] {} ≠ .fuel := by
+  constructor
+  · exact c15_refines _ _ _ (by decide)
+  · decide
 
 end GoSup.Props.C15
